@@ -334,9 +334,98 @@ def run_invalid(case, acc):
         core.unload_source(ns)
 
 
+# ---------------------------------------------------------------------------------------------------------------
+# several groups of preconditions (an override weakens its base): the factory of a group that fails is called only if the call
+# is rejected, and then only the factory of the contract which is reported
+
+GROUPS_SRC = '''\
+import icontract
+LOG = []
+T = {}
+RET = {}
+class MyErr(Exception): pass
+def RUN(c):
+    try:
+        c.send(None)
+    except StopIteration as e:
+        return e.value
+    raise AssertionError("suspended")
+def mk(name):
+    def cond(x):
+        LOG.append(("cond", name))
+        return T.get(name, True)
+    def fac(x):
+        LOG.append(("ef", name))
+        RET[name] = MyErr(name)
+        return RET[name]
+    return cond, fac
+ca, fa = mk("a")
+cb, fb = mk("b")
+cc, fc = mk("c")
+class A(icontract.DBC):
+    @icontract.require(ca, error=fa)
+    ADEF f(self, x):
+        return "A"
+class B(A):
+    @icontract.require(cb, error=fb)
+    ADEF f(self, x):
+        return "B"
+class C(B):
+    @icontract.require(cc, error=fc)
+    ADEF f(self, x):
+        return "C"
+'''
+
+
+def check_groups(acc):
+    for is_async in (False, True):
+        src = GROUPS_SRC.replace("ADEF", "async def" if is_async else "def")
+        ns = core.fresh_ctx_run(core.load_source, src, "c09g")
+        try:
+            for cls_name, names in (("A", "a"), ("B", "ab"), ("C", "abc")):
+                for bits in itertools.product((True, False), repeat=len(names)):
+                    truth = dict(zip(names, bits))
+
+                    def call():
+                        ns["T"].clear()
+                        ns["T"].update(truth)
+                        ns["RET"].clear()
+                        del ns["LOG"][:]
+                        try:
+                            r = ns[cls_name]().f(1)
+                            return ("ret", ns["RUN"](r) if is_async else r)
+                        except BaseException as e:  # noqa
+                            return ("exc", e)
+                    out = core.fresh_ctx_run(call)
+                    log = list(ns["LOG"])
+                    efs = [e[1] for e in log if e[0] == "ef"]
+                    feats = {"part": "groups", "callable": "amethod" if is_async else "method", "cls": cls_name, "role": "pre", "form": "func"}
+                    acc.case(("groups", is_async, cls_name, bits), True, len(log), out[0])
+                    bad = None
+                    if any(bits):
+                        if out != ("ret", cls_name):
+                            bad = ("accepted_call_rejected", "a group holds but the call gave {!r}".format(out))
+                        elif efs:
+                            bad = ("factory_called_unexpectedly", "the call was accepted, yet the factories of {} were called".format(efs))
+                    else:
+                        if out[0] != "exc" or len(efs) != 1:
+                            bad = ("factory_call_count", "all groups fail: outcome {!r}, factories called: {}".format(out, efs))
+                        elif out[1] is not ns["RET"].get(efs[0]):
+                            bad = ("raised_not_the_returned_exception", "raised {!r}, factory {} returned {!r}".format(out[1], efs[0], ns["RET"].get(efs[0])))
+                    if bad:
+                        acc.violation(core.Violation(PROP, bad[0], feats, "{} truth={}: {} (log {})".format(cls_name, truth, bad[1], log),
+                                                     spec={"part": "groups"}, script=src))
+            acc.sample({"part": "groups", "is_async": is_async}, cap=1)
+        finally:
+            core.unload_source(ns)
+
+
 def work(chunk):
     acc = core.Acc()
     for case in chunk:
+        if case.get("part") == "groups":
+            check_groups(acc)
+            continue
         if "deco" in case:
             run_invalid(case, acc)
         else:
@@ -345,7 +434,7 @@ def work(chunk):
 
 
 def run(tier, t0):
-    cs = core.rotate(cases(tier) + invalid_cases())
+    cs = core.rotate(cases(tier) + invalid_cases() + [{"part": "groups"}])
     tot = core.merge(core.pmap(work, cs))
     return core.finish(
         PROP, tier, tot, t0,
@@ -355,7 +444,8 @@ def run(tier, t0):
              "subset of the nameable values (x, _ARGS, _KWARGS, self, result, OLD) + an unknown name + non-exception / "
              "BaseException returns; every case is a HISTORY of violate, satisfy, violate, violate in one context (identity of a "
              "raised instance must hold on every repetition); plus invalid error kinds x the three decorators at decorator "
-             "creation; non-trivial = every case",
+             "creation; plus a chain of three classes whose overrides weaken the precondition (three groups, each with a factory, method and async method) x every truth "
+             "assignment: no factory call when a group accepts, exactly one (and its exception raised) when all fail; non-trivial = every case",
         assumptions=["the generated message itself is judged by C06/C07/C20; here only its frame (location line + condition name)"],
         bounds={"cases": len(cs), "history_length": 4},
     )
@@ -364,7 +454,9 @@ def run(tier, t0):
 def replay(path):
     data = json.load(open(path))["spec"]
     acc = core.Acc()
-    if "invalid" in data:
+    if data.get("part") == "groups":
+        check_groups(acc)
+    elif "invalid" in data:
         run_invalid(data["invalid"], acc)
     else:
         run_case(data["case"], acc)
